@@ -145,9 +145,12 @@ func (k Keeper) EditToken(
 
 	if maxSupply > 0 {
 		issuedAmt := k.getTokenSupply(ctx, token.MinUnit)
-		issuedMainUnitAmt := issuedAmt.Quo(sdkmath.NewIntWithDecimal(1, int(token.Scale)))
+		precision := sdkmath.NewIntWithDecimal(1, int(token.Scale))
+		issuedMainUnitAmt := issuedAmt.Quo(precision)
 
-		if sdkmath.NewIntFromUint64(maxSupply).LT(issuedMainUnitAmt) {
+		// compare in minimum units: a fractional part of the issued amount
+		// must not slip under the new maximum
+		if sdkmath.NewIntFromUint64(maxSupply).Mul(precision).LT(issuedAmt) {
 			return errorsmod.Wrapf(
 				types.ErrInvalidMaxSupply,
 				"max supply must not be less than %s",
